@@ -516,9 +516,9 @@ func c11BuildCase(seed int64, idx int) *c11Case {
 
 	ops := []logical.Operation{logical.ReadOperation, logical.UpdateOperation, logical.CreateOperation, logical.DeleteOperation, logical.ListOperation, logical.ListOperation, logical.PatchOperation, logical.ScanOperation}
 	req := &logical.Request{
-		ID:        fmt.Sprintf("req-%d", idx),
-		Operation: kit.Pick(rng, ops),
-		Path:      "secret/data/app" + fmt.Sprint(rng.Intn(10)),
+		ID:         fmt.Sprintf("req-%d", idx),
+		Operation:  kit.Pick(rng, ops),
+		Path:       "secret/data/app" + fmt.Sprint(rng.Intn(10)),
 		MountPoint: "secret/", MountType: "kv",
 	}
 	if rng.Chance(9, 10) {
@@ -903,3 +903,19 @@ func TestVerif_C11_FormatCanary(t *testing.T) {
 		}
 	}
 }
+
+// Replay support: /verif/check replays a witness by running only the recorded
+// test function in every package of the plan. The ordering monitors live in
+// internal/vault; these stubs make this package report "nothing to do" instead
+// of "no result written" when such a witness is replayed.
+func c11ReplayStub(t *testing.T, name string) {
+	if kit.OnlyCase() == "" {
+		t.Skip("replay stub: the real monitor lives in internal/vault")
+		return
+	}
+	r := kit.NewResult(t, name, kit.Seed(11), "replay stub (the monitor of this name lives in the other package of the plan)")
+	r.Write(t)
+}
+
+func TestVerif_C11_Order(t *testing.T)      { c11ReplayStub(t, "c11-replay-stub-audit-order") }
+func TestVerif_C11_FileDevice(t *testing.T) { c11ReplayStub(t, "c11-replay-stub-audit-file") }
